@@ -7,6 +7,15 @@ from .state import *  # noqa
 from .values import *  # noqa
 
 EXPAND_LIMIT = 48
+PYDIV = z3.Function("pydiv", INT, INT, INT)
+PYMOD = z3.Function("pymod", INT, INT, INT)
+
+
+def _div_axiom():
+    a, b = z3.Ints("da db")
+    q, r = PYDIV(a, b), PYMOD(a, b)
+    body = z3.Implies(b != 0, z3.And(a == b * q + r, z3.Implies(b > 0, z3.And(r >= 0, r < b)), z3.Implies(b < 0, z3.And(r <= 0, r > b))))
+    return z3.ForAll([a, b], body, patterns=[q, r])
 
 
 class Evaluator:
@@ -21,7 +30,8 @@ class Evaluator:
         self.cur_tags = set()
         self.macros = contracts.macros if contracts else {}
         self.sum_funcs = {}
-        self.axioms = []  # global facts (sum unfoldings), valid in every state
+        self.axioms = []  # global facts (division, sum unfoldings), valid in every state
+        self._div_axiom = False
         self.unroll = False  # unroll mode: concrete arities, loops unrolled
         self.check_bounds = True
         self.line = 0
@@ -272,6 +282,16 @@ class Evaluator:
             else:
                 conds.append(z3.And(k >= zint(a[1]), k < zint(a[1]) + zint(a[2])))
                 view_ix.append(k - zint(a[1]))
+        if isinstance(value, tuple) and all(is_scalar(x) for x in value):
+            elems = list(value)
+
+            def tfn(ix, elems=elems):
+                acc = elems[-1]
+                for k in range(len(elems) - 2, -1, -1):
+                    acc = v_ite(v_eq(ix[0], k), elems[k], acc)
+                return acc
+
+            value = AExpr([len(elems)], tfn, "i64")
         if isinstance(value, (Arr, AExpr)):
             src = self.to_aexpr(st, value)
             if src.ndim > target.ndim:
@@ -315,7 +335,13 @@ class Evaluator:
             return a // b if want == "q" else a % b
         if not st.spec:
             self.oblige(st, "div", "nonzero", b != 0)
-        if st.spec or isinstance(b, int):
+        if st.spec and not isinstance(b, int):
+            # python floor division by a symbolic divisor: uninterpreted functions constrained by a quantified axiom (see Evaluator.__init__)
+            if not self._div_axiom:
+                self._div_axiom = True
+                self.axioms.append(_div_axiom())
+            return PYDIV(zint(a), zint(b)) if want == "q" else PYMOD(zint(a), zint(b))
+        if isinstance(b, int):
             a, b = zint(a), zint(b)
             if isinstance(b, int) or z3.is_int_value(b):
                 bv = b if isinstance(b, int) else b.as_long()
@@ -323,8 +349,8 @@ class Evaluator:
             else:
                 q = z3.If(b > 0, a / b, (-a) / (-b))
             return q if want == "q" else a - b * q
-        q = fresh_int("q")
-        r = fresh_int("r")
+        q = PYDIV(zint(a), zint(b))
+        r = PYMOD(zint(a), zint(b))
         st.assume(z3.And(zint(a) == zint(b) * q + r, z3.Implies(zint(b) > 0, z3.And(r >= 0, r < zint(b))), z3.Implies(zint(b) < 0, z3.And(r <= 0, r > zint(b)))))
         return q if want == "q" else r
 
